@@ -194,7 +194,9 @@ def doc_keep(f, cfg, is_gt, tf_given):
         return F(lst[idx])
 
     c = cfg.get("conf")
-    if c is not None and not (F(f["conf"]) > (F(0) if mean_mode else F(c[idx]))):
+    # documented: the confidence list "is only used when is_gt=False" (the code also applies it to ground
+    # truth, see C10_confidence_estimates_only_refuted; generated ground truth has score 1.0 > every threshold)
+    if c is not None and not is_gt and not (F(f["conf"]) > (F(0) if mean_mode else F(c[idx]))):
         return False
     if ego is not None:
         x, y, d = (F(v) for v in ego)
@@ -281,7 +283,9 @@ def gen_cfg(rng, objs_facts, stream):
     xs = sorted({abs(f["pos"][0]) for f in objs_facts if f["pos"]}) or [5.0]
     ys = sorted({abs(f["pos"][1]) for f in objs_facts if f["pos"]}) or [5.0]
     ds = sorted({f["pos"][2] for f in objs_facts if f["pos"]}) or [5.0]
-    cs = sorted({f["conf"] for f in objs_facts}) or [0.5]
+    # thresholds stay below 1.0 = the score of generated ground truth (the code applies the confidence list
+    # to ground truth too, against its documentation: see C10_confidence_estimates_only_refuted)
+    cs = sorted({f["conf"] for f in objs_facts if f["conf"] < 1.0}) or [0.5]
 
     def pick(vals, lo, hi):
         r = rng.random()
